@@ -545,13 +545,23 @@ func entityLUBsRelated(a, b entityLUB) bool {
 // isEntityDescendant returns true if childType can be a descendant (member) of ancestorType.
 // This means childType lists ancestorType (directly or transitively) in its ParentTypes.
 func (v *Validator) isEntityDescendant(childType, ancestorType types.EntityType) bool {
+	return v.isEntityDescendantFrom(childType, ancestorType, map[types.EntityType]bool{})
+}
+
+// isEntityDescendantFrom is isEntityDescendant with the set of entity types already
+// visited: entity-type hierarchies may be cyclic (entity Folder in [Folder]).
+func (v *Validator) isEntityDescendantFrom(childType, ancestorType types.EntityType, visited map[types.EntityType]bool) bool {
+	if visited[childType] {
+		return false
+	}
+	visited[childType] = true
 	// Entity types always exist in the schema (validated during scope checking).
 	entity := v.schema.Entities[childType]
 	for _, parent := range entity.ParentTypes {
 		if parent == ancestorType {
 			return true
 		}
-		if v.isEntityDescendant(parent, ancestorType) {
+		if v.isEntityDescendantFrom(parent, ancestorType, visited) {
 			return true
 		}
 	}
